@@ -5,6 +5,7 @@ package main
 import (
 	"bytes"
 	"fmt"
+	"io"
 	"math/rand/v2"
 
 	"github.com/fluhus/biostuff/formats/fastq"
@@ -62,21 +63,13 @@ func fastqListString(recs []*fastq.Fastq) string {
 }
 
 func fastqWrite(k *K, recs []*fastq.Fastq) []byte {
-	var w, m bytes.Buffer
-	for i, rec := range recs {
-		if err := rec.Write(&w); err != nil {
-			k.Failf("write-error", "Write of record %d returned %v", i, err)
-		}
-		txt, err := rec.MarshalText()
-		if err != nil {
-			k.Failf("marshal-error", "MarshalText of record %d returned %v", i, err)
-		}
-		m.Write(txt)
+	var ms []func() ([]byte, error)
+	var ws []func(io.Writer) error
+	for _, rec := range recs {
+		ms = append(ms, rec.MarshalText)
+		ws = append(ws, rec.Write)
 	}
-	if !bytes.Equal(w.Bytes(), m.Bytes()) {
-		k.Failf("write-vs-marshal", "Write and MarshalText bytes differ: %d vs %d bytes", w.Len(), m.Len())
-	}
-	return w.Bytes()
+	return heldMarshalCheck(k, ms, ws)
 }
 
 // fastqShape: each record is exactly the four lines @name, seq, +, quals.
